@@ -41,6 +41,16 @@ def scenarios(rng, tier):
                 # the Query may arrive by another path than the frame that opened the session (direct / through a bridge)
                 s.frame(0, query(M, own, seq=rng.randrange(1, 65536), esrc=rng.choice([ME, ME, M, mac(41)])))
             if rng.random() < 0.25: s.frame(0, reset(M)); s.frame(0, discover(M, gen=1, esrc=ME))
+    # stations (and destinations) that differ in one octet only: seven observations, none merged; what is addressed to a
+    # twin of the own address is not for us
+    for k in range(7 if tier == 'quick' else 42):
+        own = OWN0; s.start('twin_%d' % k); s.lines.append(Cfg(0, mtu=rng.choice([576, 1500])).line())
+        M = TWINS[k % 7]; s.frame(0, discover(M, gen=1, esrc=M))
+        order = TWINS[k % 7:] + TWINS[:k % 7]
+        for T in order: s.frame(0, probe(T, own, T, own, train=k % 2 == 0))
+        for p_ in range(6): s.frame(0, probe(mac(90 + p_), twin(own, p_), mac(90 + p_), twin(own, p_)))
+        for p_ in range(6): s.frame(0, probe(TWIN0, own, twin(TWIN0, p_, 0x01), own))          # same Ethernet source, real sources one bit apart
+        s.frame(0, query(M, own, seq=9, esrc=M)); s.frame(0, query(M, own, seq=10, esrc=twin(M, k % 6)))
     fam_full_lists(s, 'full', RESIDUE_MTUS[::2] if tier == 'quick' else RESIDUE_MTUS)
     fam_mtu_change(s, 'mtuchg', rng, 8 if tier == 'quick' else 150)
     oth = other_iface_variants(s.text(), rng, 10 if tier == 'quick' else 150)
